@@ -363,6 +363,18 @@ func runHistory(t *rapid.T) {
 			}
 			wd.do(s, "SEARCH", uid, fmt.Sprintf("%sSEARCH %s%s", uidWord(uid), ret, key))
 		},
+		"rejected": func(t *rapid.T) {
+			// a non-UID FETCH/STORE/SEARCH that the server rejects: what it
+			// reports on that occasion is subject to the same rule (no EXPUNGE)
+			s := wd.pick(t, selected)
+			if s == nil {
+				return
+			}
+			bad := rapid.SampledFrom([]string{"FETCH 1 BOGUSITEM", "FETCH 1", "STORE 1 BOGUS", "SEARCH BOGUSKEY", "FETCH 1 (FLAGS BOGUS)", "STORE 1 +FLAGS", "SEARCH LARGER x"}).Draw(t, "bad")
+			if _, st := wd.do(s, strings.Fields(bad)[0], false, bad); st.Status == "OK" {
+				wd.fail("HARNESS: %q was expected to be rejected", bad)
+			}
+		},
 		"noop": func(t *rapid.T) {
 			s := wd.pick(t, selected)
 			if s == nil {
@@ -427,7 +439,7 @@ func runHistory(t *rapid.T) {
 	// mailboxes and the commands that observe them dominate
 	var weighted []string
 	for name, wgt := range map[string]int{"open": 3, "select": 5, "append": 10, "store": 14, "expunge": 10, "copymove": 10, "fetch": 9,
-		"search": 8, "noop": 8, "idle": 4, "done": 8, "close": 2, "reconnect": 2} {
+		"search": 8, "rejected": 3, "noop": 8, "idle": 4, "done": 8, "close": 2, "reconnect": 2} {
 		for i := 0; i < wgt; i++ {
 			weighted = append(weighted, name)
 		}
